@@ -4,7 +4,8 @@ Life cycle with `set_params` (C19, histories that change a constructor parameter
 sklearn's `BaseEstimator.set_params(p=v)` is `setattr(self, "p", v)` and nothing else: attributes that `__init__`
 DERIVED from a parameter (GridSearch: `self.objective_weight = 1.0 - constraint_weight`, grid_search.py:103) keep the
 value computed at construction, while `clone` re-runs `__init__` on the current parameters.  An estimator whose `fit`
-reads such an attribute therefore fits with a mixture of the new parameter and the stale derived value.
+reads such an attribute therefore fits with a mixture of the new parameter and the stale derived value (finding F5f:
+GridSearch did, until /repo 2f54dd0; the attribute is still derived but no longer read).
 
   * `PSpec`   the property: `fit(D)` gives the model of a fresh estimator constructed with the CURRENT parameters;
   * `P rd`    an estimator with one tracked parameter and one attribute derived from it in `__init__`;
